@@ -83,6 +83,14 @@ theorem approx_pow2_int_spec (bits : ℕ) (n : ℤ) :
       else if n ≤ 0 then (if bits = 0 then none else some 1)
       else if n < (bits : ℤ) then some (2 ^ n.toNat) else none := approxPow2Int_eq bits n
 
+/-- `approx_pow2`, integer post-processing for any `bits` word and `shift`: exact `mant·2^(shift−63)` for
+    `shift ≥ 63`, round-half-up of `mant / 2^(63−shift)` below, `None` iff the value does not fit. -/
+theorem approx_pow2_post_spec (bits mant shift : ℕ) :
+    approxPow2Post bits mant shift =
+      (let v := if shift ≥ 63 then mant * 2 ^ (shift - 63)
+                else (mant + 2 ^ (63 - shift - 1)) / 2 ^ (63 - shift)
+       if v < 2 ^ bits then some v else none) := approxPow2Post_eq bits mant shift
+
 /-- the driver's independent oracle for `pow` (MSB-first, saturating) is `(a^e mod m, min (a^e) m)`. -/
 theorem spec_pow_oracle (m a e : ℕ) : specPow m a e = (a ^ e % m, min (a ^ e) m) :=
   C13Spec.specPow_spec m a e
@@ -285,6 +293,38 @@ theorem root_degree_zero (bits x g : ℕ) : root bits x 0 g = .panic := by simp 
     `result` is `0` and `self / 0` panics. -/
 theorem root_guess_hypothesis_needed : root 8 255 2 1 = .panic ∧ guessOk 8 255 2 1 15 = false := by
   decide
+
+/-! ## exhaustive cross-checks at tiny widths (kernel evaluation; **not** the theorems — these only
+    re-confirm `root_spec` / `log_spec` on every input of the small widths, for **every** first guess /
+    estimate, and show that an exact first guess always satisfies `guessOk`) -/
+
+/-- bounded enumeration -/
+def allLt (n : Nat) (p : Nat → Bool) : Bool := (List.range n).all p
+
+/-- widths `< maxBits`, all `x`, all degrees reaching the loop, **all** guesses `g < 2^bits`:
+    `guessOk → root = oracle`. -/
+def rootCross (maxBits : Nat) : Bool :=
+  allLt maxBits fun bits => allLt (2 ^ bits) fun x => allLt bits fun k =>
+    if 2 ≤ k ∧ x ≠ 0 then
+      allLt (2 ^ bits) fun g =>
+        !(guessOk bits x k g (iroot x k)) || decide (root bits x k g = .ok (iroot x k))
+    else true
+
+/-- an exact first guess `g = s` always satisfies the hypothesis (it is not vacuous at any tiny input). -/
+def rootExactGuessOk (maxBits : Nat) : Bool :=
+  allLt maxBits fun bits => allLt (2 ^ bits) fun x => allLt bits fun k =>
+    if 2 ≤ k ∧ x ≠ 0 then guessOk bits x k (iroot x k) (iroot x k) else true
+
+/-- widths `< maxBits`, all `(x, base)`, **all** estimates: `estOk → log = oracle`. -/
+def logCross (maxBits : Nat) : Bool :=
+  allLt maxBits fun bits => allLt (2 ^ bits) fun x => allLt (2 ^ bits) fun base => allLt (2 ^ bits) fun est =>
+    if 2 ≤ base ∧ x ≠ 0 then
+      !(estOk bits base est (ilog base x)) || decide (Log.log bits x base est = .ok (ilog base x))
+    else true
+
+theorem crosscheck_root_widths_le_5 : rootCross 6 = true := by decide +kernel
+theorem crosscheck_root_exact_guess_ok_widths_le_8 : rootExactGuessOk 9 = true := by decide +kernel
+theorem crosscheck_log_widths_le_5 : logCross 6 = true := by decide +kernel
 
 /-! ## non-vacuity: the hypotheses are satisfiable and the model computes -/
 
